@@ -83,6 +83,13 @@ func (f *file) register(c *Counter) {
 		}
 		if f.counters.CompareAndSwap(head, c) {
 			debugPrintf("registered %s %p\n", c.Name(), f.counters.Load())
+			// Another goroutine may have seen c.next set and used c before it
+			// was reachable from the list. If the file was opened meanwhile,
+			// invalidateCounters did not visit c: refresh it now.
+			if f.current.Load() != nil {
+				c.invalidate()
+				c.refresh()
+			}
 			return
 		}
 		debugPrintf("register %s cas2 failed %p %p\n", c.Name(), f.counters.Load(), head)
